@@ -9,7 +9,8 @@
 // Each case runs in a forked child (alarm + RLIMIT_AS): a timeout becomes a Hang
 // record, a signal/abnormal exit a Crash record.  After four Hang records in one run
 // the limit drops to 1 s (a regular call takes milliseconds), so that a run over code
-// that loops on many inputs stays bounded.
+// that loops on many inputs stays bounded; after thirty the remaining cases are not run
+// and get a Skipped record each (the run already carries thirty rejected records).
 #include <algorithm>
 #include <cmath>
 #include <cstdio>
@@ -198,6 +199,7 @@ int main(int argc, char **argv) {
     Case c; char fn[64], sp[64], sl[64], sh[64], st[64];
     if (sscanf(line, "%ld %63s %63s %63s %63s %63s %d", &c.id, fn, sp, sl, sh, st, &c.isint) != 7) continue;
     c.fn = fn; c.prm = strtod(sp, 0); c.lo = strtod(sl, 0); c.hi = strtod(sh, 0); c.tol = strtod(st, 0);
+    if (nhang >= 30) { fprintf(outf, "{\"e\":\"Skipped\",\"id\":%ld}\n", c.id); continue; }
     fprintf(outf, "{\"e\":\"Call\",\"id\":%ld,\"fn\":\"%s\",\"int\":%s}\n", c.id, fn, c.isint ? "true" : "false");
     fflush(outf);
     pid_t pid = fork();
